@@ -105,11 +105,15 @@ class _Collector:
                 return
             if self.first_failure_t is None:
                 self.first_failure_t = time.monotonic()
-            self.failures.append((v.signature, v.detail, case))
+            self.failures.append((v.signature, v.detail, getattr(v, 'min_case', None) or case))
             raise
-        self.evaluations += 1
+        self.evaluations += out.get('count', 1)
         for c in out.get('classes', ()):
             self.classes[c] += 1
+        for c, n in (out.get('class_counts') or {}).items():
+            self.classes[c] += n
+        for h in out.get('nontrivial_keys', ()):
+            self.nontrivial.add(h)
         if out.get('nontrivial'):
             h = common.case_hash(case)
             if h not in self.nontrivial:
@@ -179,7 +183,7 @@ def _worker(args):
                             col.run_case(case)
                         except Violation as v:
                             suppressed.add(v.signature)
-                            res['violations'].append((v.signature, v.detail, case))
+                            res['violations'].append((v.signature, v.detail, getattr(v, 'min_case', None) or case))
                             col.first_failure_t = None
                         res['enumerated'] += 1
                     res['exhaustive'] = not col.budget_hit
